@@ -105,7 +105,7 @@ func (c Case) showFalsy() bool {
 			if a.Gt != nil {
 				_, t, spec = c.pairVal(Pair{Src: "gt", Arg: a.Text, N: *a.Gt}, k)
 			} else {
-				t, spec = c.lookup(a.Text, k).Truthy()
+				t, spec = truthyOf(c.lookup(a.Text, k))
 			}
 			if spec && !t {
 				return true
@@ -152,7 +152,7 @@ func (c Case) classFmtRegion() []string {
 		if a.Name == "class" && (a.Kind == "bind" || a.Kind == "vbind") {
 			for k := 0; k < c.instances(); k++ {
 				v := c.lookup(a.Text, k)
-				if t, spec := v.Truthy(); v.K != "string" && (t || !spec) {
+				if t, spec := truthyOf(v); v.K != "string" && (t || !spec) {
 					paths = append(paths, a.Text)
 					break
 				}
@@ -442,6 +442,39 @@ func isOddName(n string) bool {
 func classify(c Case) (bool, []string) {
 	var cls []string
 	add := func(s string) { cls = append(cls, s) }
+	{
+		coll := func(where string, v vals.V) {
+			switch v.K {
+			case "nil[]any", "nil[]string", "nilmap", "nilmapss", "nilbytes":
+				add("collection:nil(" + where + ")")
+			case "[]any", "[]string", "[]int", "map", "mapss", "bytes":
+				if len(v.L) == 0 && len(v.M) == 0 && v.S == "" {
+					add("collection:empty(" + where + ")")
+				} else {
+					add("collection:filled(" + where + ")")
+				}
+			}
+		}
+		for _, a := range c.Attrs {
+			switch a.Kind {
+			case "bind", "vbind":
+				coll("bound", c.lookup(a.Text, 0))
+				if strings.HasPrefix(a.Text, "p.") {
+					add("path:struct-field")
+				}
+			case "show":
+				if a.Gt == nil {
+					coll("v-show", c.lookup(a.Text, 0))
+				}
+			case "obj", "vobj":
+				for _, p := range a.Pairs {
+					if p.Src == "path" {
+						coll(a.Name+"-object", c.lookup(p.Arg, 0))
+					}
+				}
+			}
+		}
+	}
 	for _, a := range c.Attrs {
 		if a.Name == "class" || a.Name == "style" {
 			continue
@@ -567,7 +600,7 @@ func classify(c Case) (bool, []string) {
 			boundN++
 			add("form:" + a.Kind)
 			v := c.lookup(a.Text, 0)
-			t, spec := v.Truthy()
+			t, spec := truthyOf(v)
 			switch {
 			case !spec:
 				add("bound:unspecified-truthiness")
@@ -617,7 +650,7 @@ func classify(c Case) (bool, []string) {
 				add("show:comparison")
 			} else {
 				v := c.lookup(a.Text, 0)
-				t, spec = v.Truthy()
+				t, spec = truthyOf(v)
 				add("kind:" + v.K)
 			}
 			switch {
@@ -745,7 +778,7 @@ func classify(c Case) (bool, []string) {
 					for _, d := range parseDecls(v.S) {
 						punct("bound-string", d.val)
 					}
-					if t, spec := v.Truthy(); t && spec {
+					if t, spec := truthyOf(v); t && spec {
 						rebuilt = true
 					}
 				}
@@ -801,7 +834,7 @@ func classify(c Case) (bool, []string) {
 			sawFalsy, mixed, falsyFirst := false, false, false
 			var first *bool
 			for k := 0; k < c.instances(); k++ {
-				t, spec := c.lookup(a.Text, k).Truthy()
+				t, spec := truthyOf(c.lookup(a.Text, k))
 				if !spec {
 					continue
 				}
@@ -848,8 +881,38 @@ func specialStrings() []vals.V {
 	return out
 }
 
+// scalarForms: scalars of every Go type whose printed form is easy to get wrong: non-dyadic
+// float32, float64 in exponent notation, integer extremes, named types, String methods,
+// time.Duration, json.Number, []byte - the oracle is fmt.Sprint of the value.
+func scalarForms() []vals.V {
+	n := vals.Num
+	k := func(kind, s string) vals.V { return vals.V{K: kind, S: s} }
+	return []vals.V{
+		n("float32", "0.1"), n("float32", "0.35"), n("float32", "2.7"), n("float32", "16777217"), n("float32", "1e-7"),
+		n("float64", "0.1"), n("float64", "1e21"), n("float64", "1e-7"), n("float64", "100000000"), n("float64", "123456789.125"), n("float64", "2.7"),
+		n("int8", "-128"), n("int8", "127"), n("int16", "-32768"), n("int32", "2147483647"), n("int64", "-9223372036854775808"), n("int64", "9223372036854775807"),
+		n("uint8", "255"), n("uint16", "65535"), n("uint32", "4294967295"), n("uint64", "18446744073709551615"), n("uint", "18446744073709551615"), n("int", "-9223372036854775808"),
+		k("Ratio", "0.1"), k("Ratio", "0"), k("Qty", "5"), k("Qty", "0"), k("Name", "nm"), k("Name", ""), k("Flag", "true"), k("Flag", "false"),
+		k("Level", "3"), k("Level", "0"), k("*Money", "1250"), k("duration", "1500000000"), k("duration", "0"), k("jsonnum", "12.50"), k("jsonnum", "0"),
+		k("bytes", "ab"), k("bytes", ""), k("nilbytes", ""), k("nilmapss", ""),
+	}
+}
+
+// postVariants: a record whose collections are nil, empty or filled.
+func postVariants() []vals.V {
+	tags := func(l ...vals.V) vals.V { return vals.V{K: "[]string", L: append([]vals.V{}, l...)} }
+	labels := func(m map[string]vals.V) vals.V { return vals.V{K: "mapss", M: m} }
+	return []vals.V{
+		{K: "post", M: map[string]vals.V{"Title": vals.Str("t")}}, // Tags and Labels nil
+		{K: "post", M: map[string]vals.V{"Title": vals.Str("t"), "Tags": tags(), "Labels": labels(map[string]vals.V{})}},
+		{K: "post", M: map[string]vals.V{"Title": vals.Str("t"), "Tags": tags(vals.Str("a"), vals.Str("b")), "Labels": labels(map[string]vals.V{"k": vals.Str("v")})}},
+		{K: "post", M: map[string]vals.V{"Title": vals.Str(""), "Tags": tags(vals.Str("a"))}}, // Labels nil, Tags filled
+	}
+}
+
 func tableVals() []vals.V {
 	out := append(vals.Scalars(), vals.Containers()...)
+	out = append(out, scalarForms()...)
 	out = append(out, specialStrings()...)
 	out = append(out,
 		vals.Str("b1 b2"), vals.Str("hello"),
@@ -1038,6 +1101,13 @@ func baseData(x vals.V) map[string]vals.V {
 	}
 }
 
+// extendedForm: the forms that exercise the style vocabulary (punctuated values, escapes,
+// display declarations, ternaries) rather than the value table.
+func extendedForm(name string) bool {
+	return strings.HasPrefix(name, "style-rich") || strings.HasPrefix(name, "style-semicolon") || strings.HasPrefix(name, "display-") ||
+		strings.HasPrefix(name, "style-escape") || strings.HasSuffix(name, "-ternary")
+}
+
 func enumerate(rec *ev.Rec, f *findings, shard, shards int) (int, bool) {
 	n := 0
 	ok := true
@@ -1060,16 +1130,27 @@ func enumerate(rec *ev.Rec, f *findings, shard, shards int) (int, bool) {
 	nBasic := len(vals.Scalars()) + len(vals.Containers())
 	for vi, v := range tableVals() {
 		for _, fm := range coreForms() {
-			extended := strings.HasPrefix(fm.name, "style-rich") || strings.HasPrefix(fm.name, "style-semicolon") || strings.HasPrefix(fm.name, "display-") ||
-				strings.HasPrefix(fm.name, "style-escape") || strings.HasSuffix(fm.name, "-ternary")
+			extended := extendedForm(fm.name)
 			for _, pl := range corePlacements() {
 				if (extended || vi >= nBasic) && !run.Thorough() {
 					// quick tier: the style-vocabulary forms, and the values beyond the basic scalar /
 					// container table (special strings, punctuated and multi-line strings), go through
 					// the distinct evaluation paths only; thorough runs the full product
 					switch pl.name {
-					case "div", "v-if", "v-for", "tplfor", "slot", "v-html":
+					case "div":
+					case "v-if", "v-for", "tplfor", "slot", "v-html":
+						if extended && vi >= nBasic {
+							continue // a style-vocabulary form over a non-basic value: one placement
+						}
 					default:
+						continue
+					}
+				}
+				if !extended && vi < nBasic && vi%3 != 0 && !run.Thorough() {
+					// quick tier: two of three basic values leave out the placements that share their
+					// evaluation path with another one
+					switch pl.name {
+					case "root", "input", "textarea", "pre", "slot#", "v-else-if", "v-for+v-if", "v-text", "v-once":
 						continue
 					}
 				}
@@ -1086,9 +1167,35 @@ func enumerate(rec *ev.Rec, f *findings, shard, shards int) (int, bool) {
 			}
 		}
 	}
+	// collection fields of a record (nil / empty / filled) x every form x the distinct evaluation paths
+	for _, pv := range postVariants() {
+		for _, x := range []string{"p.Tags", "p.Labels"} {
+			for _, fm := range coreForms() {
+				for _, pl := range corePlacements() {
+					switch pl.name {
+					case "div", "v-if", "v-else", "v-for", "tplfor", "slot", "v-html":
+					default:
+						continue
+					}
+					attrs := []Attr{{Kind: "static", Name: "lang", Text: "en"}, marker()}
+					attrs = append(attrs, fm.attrs(x)...)
+					attrs = append(attrs, Attr{Kind: "static", Name: "data-b", Text: "z w"})
+					d := baseData(vals.Str("x"))
+					d["p"] = pv
+					c := Case{Tag: "p", Attrs: attrs, Data: d}
+					pl.apply(&c)
+					each(c)
+					if !ok {
+						return n, false
+					}
+				}
+			}
+		}
+	}
 	// attribute names: every odd name x form x a few values x a few placements
 	for _, name := range oddNames {
-		for _, v := range []vals.V{vals.Str("x"), vals.Bool(false), vals.Int(5), vals.Nil(), vals.Bool(true), vals.Str("")} {
+		nameVals := []vals.V{vals.Str("x"), vals.Bool(false), vals.Int(5), vals.Nil(), vals.Bool(true), vals.Str("")}
+		for _, v := range nameVals[:run.Pick(3, len(nameVals))] {
 			nameForms := [][]Attr{
 				{{Kind: "static", Name: name, Text: "st"}},
 				{{Kind: "bind", Name: name, Text: "x"}},
@@ -1101,7 +1208,11 @@ func enumerate(rec *ev.Rec, f *findings, shard, shards int) (int, bool) {
 			for _, nf := range nameForms {
 				for _, pl := range corePlacements() {
 					switch pl.name {
-					case "div", "v-if", "v-else", "v-for", "tplfor", "slot", "v-html", "template-v-keep":
+					case "div", "v-if", "v-for", "slot", "template-v-keep":
+					case "v-else", "tplfor", "v-html":
+						if !run.Thorough() {
+							continue
+						}
 					default:
 						continue
 					}
@@ -1151,6 +1262,9 @@ func enumerate(rec *ev.Rec, f *findings, shard, shards int) (int, bool) {
 				continue // plain content sees no slot props: one value for all instances
 			}
 			for _, fm := range slotForms {
+				if !run.Thorough() && extendedForm(fm.name) {
+					continue // quick tier: the style-vocabulary forms are not crossed with the slot rows
+				}
 				var rows []vals.V
 				for i, on := range rs {
 					rows = append(rows, vals.Map(map[string]vals.V{"on": on, "v": vals.Str(fmt.Sprintf("r%d", i+1))}))
@@ -1264,6 +1378,9 @@ func (b *builder) newVar(v vals.V) string {
 }
 
 func (b *builder) anyVal(label string) vals.V {
+	if chance(b.t, label+"-scalarform", 12) {
+		return pick(b.t, label+"-sf", scalarForms())
+	}
 	if chance(b.t, label+"-multiline", 12) {
 		return pick(b.t, label+"-ml", multiLineVals)
 	}
@@ -1283,6 +1400,13 @@ func (b *builder) anyPath(label string, loopVar bool) string {
 	}
 	if loopVar && chance(b.t, label+"-it", 15) {
 		return forVar
+	}
+	if chance(b.t, label+"-post", 8) {
+		// a collection field of a record: nil, empty or filled
+		if _, ok := b.c.Data["p"]; !ok {
+			b.c.Data["p"] = pick(b.t, label+"-pv", postVariants())
+		}
+		return "p." + pick(b.t, label+"-pf", []string{"Tags", "Labels", "Tags", "Labels", "Title"})
 	}
 	return b.newVar(b.anyVal(label))
 }
